@@ -366,7 +366,7 @@ fn wellformed_case(rng: &mut Rng, rep: &mut Report, idx: u64) {
             // tail looks like data, deep indentation, wide padding
             // (a budget keeps the whole file below a few MB: the very long
             // lengths only while the text is still short)
-            let n = if text.len() < 2_000_000 { rng.pick(&[300usize, 1020, 1024, 1025, 2048, 5000, 4095, 4096, 4097, 8191, 8192, 8193, 65535, 65536, 70000]) } else if text.len() < 8_000_000 { rng.pick(&[300usize, 1020, 1024, 1025, 2048]) } else { 40 };
+            let n = if text.len() < 150_000 && rng.chance(1, 10) { rng.pick(&[8191usize, 8192, 8193, 65535, 65536, 70000]) } else if text.len() < 400_000 { rng.pick(&[300usize, 1020, 1024, 1025, 2048, 5000, 4095, 4096, 4097]) } else { 40 };
             match rng.below(3) {
                 0 => {
                     text.push('#');
